@@ -239,16 +239,26 @@ def _dipole_on(ctx, gname, isotopic_masses, dipole_moment_of_molecule):
     for coords, charges in ((np.array([[0.0, 0.0, 0.0], [0.0, 0.3, 1.2]]), np.array([1, 8])),
                             (np.array([[0.2, -0.1, 0.3]]), np.array([6])),
                             (np.array([[0.0, 0.0, -1.0], [0.9, 0.0, 0.4], [-0.8, 0.5, 0.3]]), np.array([8, 1, 1]))):
-        ctx.count(section="dipole")
-        dens = np.exp(-np.sum((pts - coords[0]) ** 2, axis=1)) + 0.3 * np.exp(-0.5 * np.sum((pts - coords[-1]) ** 2, axis=1))
-        m = np.array([isotopic_masses[int(z)] for z in charges])
-        com = (coords * m[:, None]).sum(axis=0) / m.sum()
-        ref = (charges[:, None] * (coords - com)).sum(axis=0) - np.array([np.sum(w * dens * (pts[:, k] - com[k])) for k in range(3)])
-        got = np.asarray(dipole_moment_of_molecule(g, dens, coords, charges), dtype=float)
-        ctx.nontrivial(("dipole", gname, len(charges)), section="dipole")
-        if got.shape != (3,) or np.any(_gt(np.abs(got - ref), 1e-11 * (1 + np.abs(ref)))):
-            ctx.violation("dipole:differs-from-nuclear-minus-electronic-first-moments",
-                          f"dipole_moment_of_molecule on the {gname} grid = {got}, reference {ref}", {"route": "dipole", "natoms": len(charges), "grid": gname})
+        pos = np.exp(-np.sum((pts - coords[0]) ** 2, axis=1)) + 0.3 * np.exp(-0.5 * np.sum((pts - coords[-1]) ** 2, axis=1))
+        # a sign-changing function (a spin or difference density), an all-negative one and one with exact zeros: the helper
+        # takes first moments of the values it is given (seeded change C14-N clipped them at zero)
+        for dname, dens in (("positive", pos), ("sign-changing", pos * np.cos(1.3 * pts[:, 2] + 0.4)), ("negative", -pos),
+                            ("with-zeros", np.where(pts[:, 0] > coords[0][0], pos, 0.0))):
+            ctx.count(section="dipole")
+            m = np.array([isotopic_masses[int(z)] for z in charges])
+            com = (coords * m[:, None]).sum(axis=0) / m.sum()
+            ref = (charges[:, None] * (coords - com)).sum(axis=0) - np.array([np.sum(w * dens * (pts[:, k] - com[k])) for k in range(3)])
+            keep = dens.copy()
+            got = np.asarray(dipole_moment_of_molecule(g, dens, coords, charges), dtype=float)
+            ctx.nontrivial(("dipole", gname, len(charges), dname), section="dipole")
+            sc = 1 + np.abs(ref) + np.array([np.sum(np.abs(w * dens * (pts[:, k] - com[k]))) for k in range(3)])
+            if got.shape != (3,) or np.any(_gt(np.abs(got - ref), 1e-11 * sc)):
+                ctx.violation("dipole:differs-from-nuclear-minus-electronic-first-moments",
+                              f"dipole_moment_of_molecule ({dname} function values) on the {gname} grid = {got}, reference {ref}",
+                              {"route": "dipole", "natoms": len(charges), "grid": gname, "values": dname})
+            if not np.array_equal(keep, dens):
+                ctx.violation("dipole:function-values-modified", f"dipole_moment_of_molecule modified the caller's function values ({dname})",
+                              {"route": "dipole", "natoms": len(charges), "grid": gname, "values": dname})
 
 
 def refill_histories(ctx):
